@@ -54,6 +54,7 @@ static void mk_file(int i) {
 void h_ProcessFile_data(void) {
     Byte hdr, cpu, seg, gran; unsigned long start; unsigned len; long L0, hdrlen, k; char name[2];
     int longform;
+    gf_reset();
     mk_file(0); mk_file(1);
     gf[0].pos = 0;
     gf[1].pos = gf[1].len; /* appending */
